@@ -168,7 +168,7 @@ func runProxyAttachRace(t *testing.T, idx int, em *Emitter, placed bool, procs i
 	em.Marker("begin", idx)
 	kind := "proxy-attach-race"
 	tags := []string{"attach-race", fmt.Sprintf("placed=%v", placed), fmt.Sprintf("gomaxprocs=%d", procs)}
-	wstep, wstop := guardWedge(em, idx, kind, map[string]any{"placed": placed, "procs": procs}, tags)
+	wstep, wstop := pxGuardWedge(em, idx, kind, map[string]any{"placed": placed, "procs": procs}, tags)
 	defer wstop()
 	old := runtime.GOMAXPROCS(procs)
 	defer runtime.GOMAXPROCS(old)
